@@ -42,6 +42,11 @@ Theorem C10_table_volume :
     enclosed24 ROps pos (faces_of t c) = elem_vol24 ROps pos (t, i, c).
 Proof. exact table_volume. Qed.
 
+(* scale covariance: x |-> k x multiplies element volumes by k^3 *)
+Theorem C10_volume_scale : forall k t (p : list RV3), length p = arity t ->
+  elem_vol24_pts ROps t (map (vscale ROps k) p) = (k * k * k * elem_vol24_pts ROps t p)%R.
+Proof. exact elem_vol24_scale. Qed.
+
 (* the surface consists of exactly the element faces that belong to one
    element only *)
 Theorem C10_surface_is_boundary :
